@@ -181,11 +181,35 @@ func (x *Exec) freshVal(st *State, hint string, t types.Type) Val {
 
 // havocHeap: the whole heap becomes unknown (new epoch); the allocator only grows.
 func (x *Exec) havocHeap(st *State, why string) {
+	// package variables declared `stable` / `readonly` in the contract files keep their value across unknown effects
+	type kept struct {
+		p PtrV
+		t Term
+	}
+	var keep []kept
+	for _, g := range x.stableGlobals() {
+		p := x.globalPtr(g)
+		if v, err := x.Load(st, p); err == nil {
+			if t, err := x.toTerm(v); err == nil {
+				keep = append(keep, kept{p, t})
+			}
+		}
+	}
+	defer func() {
+		for _, k := range keep {
+			if v, err := x.Load(st, k.p); err == nil {
+				if t, err := x.toTerm(v); err == nil {
+					x.C.Assume(Eq(t, k.t), "stable package variable keeps its value across "+why)
+				}
+			}
+		}
+	}()
 	st.Epoch = x.newEpoch(nil)
 	st.Heap = map[string]Term{}
 	nb := x.C.Fresh("brk", SRef)
 	x.C.Assume(bvCmp("bvuge", nb, st.Brk), "allocator monotone across "+why)
 	st.Brk = nb
+	x.oldWrites++
 	x.havocked = true
 }
 
@@ -406,6 +430,7 @@ func (x *Exec) builtinCopy(fr *Frame, st *State, call *ssa.CallCommon, args []Va
 	}
 	narr := x.copyElemsBounded(darr, SlOff(dst), srcArr, srcOff, n, bound)
 	// copy with n == 0 must not touch the heap (dst may be nil)
+	x.noteWrite(SlBase(dst))
 	x.heapSet(st, r, Ite(Eq(n, BVInt(0, 64)), h, Store(h, SlBase(dst), narr)))
 	return TV{T: n, Typ: types.Typ[types.Int]}, nil
 }
@@ -444,6 +469,7 @@ func (x *Exec) builtinAppend(fr *Frame, st *State, call *ssa.CallCommon, args []
 	grown = x.copyElems(x.C.Name("apg", grown), ln, srcArr, srcOff, n)
 	hGrow := Store(h, newRef, grown)
 	// n == 0 and fits: Go returns s unchanged (heap untouched)
+	x.noteWrite(base)
 	x.heapSet(st, r, Ite(fits, Ite(Eq(n, BVInt(0, 64)), h, hIn), hGrow))
 	st.Brk = x.C.Name("brk", Ite(fits, st.Brk, bvBin("bvadd", st.Brk, BVInt(1, 32))))
 	res := Ite(fits, MkSlice(base, off, newLen, cp), MkSlice(newRef, BVInt(0, 64), newLen, newCap))
